@@ -524,6 +524,7 @@ def siglist_cases(run, model, cd, counts, mutants):
 def regdump_choice(rng, cd, nchips, maxregs, sizes):
     out = nchips.to_bytes(2, "big")
     ids = env_ids(cd)
+    seen = []        # register keys used by earlier chips: another chip type may use the same id and instance
     for _ in range(nchips):
         model = int(rng.choice(ids), 16) if ids and rng.random() < 0.7 else pick(rng, BOUND32, 32)
         nregs = rng.randrange(maxregs + 1)
@@ -531,6 +532,9 @@ def regdump_choice(rng, cd, nchips, maxregs, sizes):
         out += nregs.to_bytes(2, "big")
         for _ in range(nregs):
             rid, inst = gen_reg_key(rng, cd, model)
+            if seen and rng.random() < 0.3:
+                rid, inst = rng.choice(seen)
+            seen.append((rid, inst))
             size = rng.choice(sizes) if rng.random() < 0.5 else rng.randrange(1, 256)
             out += rid.to_bytes(3, "big") + bytes([inst, size - 1]) + bytes(rng.randrange(256) for _ in range(size))
     return out
